@@ -21,7 +21,7 @@ LEVEL = "exploration"
 RULE = (
     "(a) Input level: the C01 message generator (every group of the table, look-alike values, all modes), plus the same "
     "messages with a non-ASCII character (Latin-1 letter, Cyrillic, CJK, emoji, NBSP, combining mark) inserted into a body "
-    "value, a group member value or a long value: Codec.encode output (ASCII inputs) and the exact bytes a real logged-on "
+    "value, a group member value or late (offset 79..299) in a long value: Codec.encode output (ASCII inputs) and the exact bytes a real logged-on "
     "connection (both roles) hands to writer.write through send_msg are checked by the independent reference framer "
     "(BeginString, BodyLength, MsgType first and in order; three-digit CheckSum last; BodyLength = byte count; CheckSum = byte "
     "sum mod 256). A message that cannot be framed must be refused: exception, nothing written, no journal row, outbound "
@@ -126,7 +126,19 @@ def send_shard(acc, n, seed, role):
                 case["msgtype"] = "D"
         sb.fresh_if_needed(role)
         nonascii = mode != 0
-        if nonascii:
+        if mode == 3:
+            # a long value (top level or inside a group item) whose only non-ASCII character sits late in it
+            n = [79, 80, 81, 100, 150, 299][pick % 6]
+            long_v = ("x" * n) + ch + ("y" * (pick % 3))
+            body = copy.deepcopy(case["body"])
+            groups = [e for e in body if e[0] == "g"]
+            if groups and pick % 2:
+                it = groups[pick % len(groups)][2][0]
+                it[0] = ("f", it[0][1], long_v)
+            else:
+                body.append(("f", "58" if not any(e[1] == "58" for e in body) else "5001", long_v))
+            case["body"] = body
+        elif nonascii:
             case["body"] = inject(case["body"], pick, ch)
         judge_send(acc, sb, role, case, nonascii)
         cnt[0] += 1
